@@ -42,20 +42,40 @@ static void dec_stream(unsigned char *buf, size_t len)
   jpeg_mem_src(&d, buf, (unsigned long)len);
   jpeg_read_header(&d, TRUE);
   if (d.master->lossless) {
-    unsigned long crc = 0; size_t rowsz; void *row; JDIMENSION y;
+    unsigned long crc = 0; size_t rowsz; void *row; JDIMENSION y; int same = 1, nc; long *all = NULL; size_t npix;
     d.out_color_space = d.jpeg_color_space;
+    for (ci = 0; ci < d.num_components; ci++)
+      if (d.comp_info[ci].h_samp_factor != d.max_h_samp_factor || d.comp_info[ci].v_samp_factor != d.max_v_samp_factor) same = 0;
     jpeg_start_decompress(&d);
-    rowsz = (size_t)d.output_width * d.output_components * 2;
+    nc = d.output_components; npix = (size_t)d.output_width * d.output_height;
+    if (nc != d.num_components) same = 0;
+    rowsz = (size_t)d.output_width * nc * 2;
     row = malloc(rowsz + 16);
+    if (same) all = malloc(npix * nc * sizeof(long) + 8);
     for (y = 0; y < d.output_height; y++) {
-      size_t i, n = (size_t)d.output_width * d.output_components;
-      if (d.data_precision <= 8) { JSAMPROW r = (JSAMPROW)row; jpeg_read_scanlines(&d, &r, 1); for (i = 0; i < n; i++) crc = crc * 31 + r[i]; }
-      else if (d.data_precision <= 12) { J12SAMPROW r = (J12SAMPROW)row; jpeg12_read_scanlines(&d, &r, 1); for (i = 0; i < n; i++) crc = crc * 31 + r[i]; }
-      else { J16SAMPROW r = (J16SAMPROW)row; jpeg16_read_scanlines(&d, &r, 1); for (i = 0; i < n; i++) crc = crc * 31 + r[i]; }
+      size_t i, n = (size_t)d.output_width * nc; long v;
+      if (d.data_precision <= 8) { JSAMPROW r = (JSAMPROW)row; jpeg_read_scanlines(&d, &r, 1); }
+      else if (d.data_precision <= 12) { J12SAMPROW r = (J12SAMPROW)row; jpeg12_read_scanlines(&d, &r, 1); }
+      else { J16SAMPROW r = (J16SAMPROW)row; jpeg16_read_scanlines(&d, &r, 1); }
+      for (i = 0; i < n; i++) {
+        v = d.data_precision <= 8 ? ((JSAMPROW)row)[i] : d.data_precision <= 12 ? ((J12SAMPROW)row)[i] : ((J16SAMPROW)row)[i];
+        crc = crc * 31 + v;
+        if (same) all[(i % nc) * npix + (size_t)y * d.output_width + i / nc] = v;
+      }
     }
     free(row);
     jpeg_finish_decompress(&d);
-    printf("lossless nc=%d warn=%ld crc=%lx\n", d.num_components, e.num_warnings, crc);
+    if (same) {
+      size_t i;
+      printf("lossless nc=%d warn=%ld", nc, e.num_warnings);
+      for (ci = 0; ci < nc; ci++) {
+        printf(" | %u %u", d.output_width, d.output_height);
+        for (i = 0; i < npix; i++) printf(" %ld", all[ci * npix + i]);
+      }
+      putchar('\n');
+      free(all);
+    } else
+      printf("lossless nc=%d warn=%ld crc=%lx\n", d.num_components, e.num_warnings, crc);
     jpeg_destroy_decompress(&d);
     return;
   }
@@ -73,6 +93,18 @@ static void dec_stream(unsigned char *buf, size_t len)
         JBLOCKARRAY rows = (*d.mem->access_virt_barray) ((j_common_ptr)&d, coefs[ci], r, 1, FALSE);
         for (b = 0; b < c->width_in_blocks; b++)
           for (k = 0; k < 64; k++) pos += sprintf(out + pos, " %d", rows[0][b][k]);
+      }
+    }
+    /* the quantization table each component was decoded with (latched at its first scan);
+       must be read before jpeg_finish_decompress releases the image pool */
+    {
+      size_t need = pos + 64 + (size_t)d.num_components * 64 * 8;
+      if (need > cap) { cap = need * 2; out = realloc(out, cap); }
+      for (ci = 0; ci < d.num_components; ci++) {
+        JQUANT_TBL *q = d.comp_info[ci].quant_table; int k;
+        if (!q) { pos += sprintf(out + pos, " ; Q none"); break; }
+        pos += sprintf(out + pos, " ; Q");
+        for (k = 0; k < 64; k++) pos += sprintf(out + pos, " %u", q->quantval[k]);
       }
     }
     jpeg_finish_decompress(&d);
